@@ -65,17 +65,18 @@ TComplete == Is("Complete") /\ Complete(ev.k, ev.v, ev.force)
 TDbLookup ==
   /\ Is("DbLookup") /\ Running /\ hasdb
   /\ LET row == txn.rows[ev.k] IN
-     IF row.built = 0 THEN ~ev.found
+     IF row.built = 0 THEN (~ev.found \/ ev.rec = RecOf(NoResult))      \* (never stored, or stored as the empty record of a forgotten result)
      ELSE ev.found /\ ev.rec = RecOf(row)
   /\ Stutter
 TDbSet ==
-  /\ Is("DbSet")
+  /\ Is("DbSet") /\ ev.rec.built # 0
   /\ LET r == ev.k  n == Len(task[ev.k].reqs) IN
      \E pi \in Perms(n) :
         /\ Causal(task[r], pi)
         /\ ProjDeps(RecordedDeps(r, pi)) = ev.rec.deps
         /\ Finished(r, RecordedDeps(r, pi))
         /\ ev.rec = RecOf(mem'[r])
+TForget   == Is("DbSet") /\ ev.rec.built = 0 /\ Forget(ev.k) /\ ev.rec = RecOf(NoResult)      \* the empty record of a forgotten result
 TDbIter   == Is("DbIter") /\ SetIteration(ev.n)
 TDbEnd    == Is("DbEnd") /\ Stutter
 TCancel   == Is("Cancel") /\ Cancel(ev.sync)
@@ -94,9 +95,12 @@ TReturn   ==
 TSnapshot ==
   /\ Is("Snapshot") /\ ~Running /\ ev.ok
   /\ ev.epoch = db.epoch
-  /\ LET stored == {k \in Keys : db.rows[k].built # 0} IN
-     /\ Len(ev.rows) = Cardinality(stored)
-     /\ \A i \in 1..Len(ev.rows) : ev.rows[i].k \in stored /\ ev.rows[i].rec = RecOf(db.rows[ev.rows[i].k])
+  /\ LET stored == {k \in Keys : db.rows[k].built # 0}
+         full == {i \in 1..Len(ev.rows) : ev.rows[i].rec.built # 0}      \* (a forgotten result is stored as the empty record)
+     IN
+     /\ Cardinality(full) = Cardinality(stored)
+     /\ \A i \in full : ev.rows[i].k \in stored /\ ev.rows[i].rec = RecOf(db.rows[ev.rows[i].k])
+     /\ \A i \in (1..Len(ev.rows)) \ full : ev.rows[i].k \notin stored /\ ev.rows[i].rec = RecOf(NoResult)
   /\ Stutter
 (* the driver built the same key in a brand-new engine: binds the Clean oracle to the real engine *)
 TCleanCheck == Is("CleanCheck") /\ ~Running /\ ev.clean = Clean(ev.k) /\ Stutter
@@ -115,7 +119,7 @@ TraceInit ==
 TraceNext ==
   \/ TReset \/ TEngine \/ TDbEpoch \/ TAttach \/ TMutate \/ TResetFB \/ TBuild \/ TDbBegin \/ TTop
   \/ TStatus \/ TValid \/ TNeedsRun \/ TCreate \/ TStart \/ TPrior \/ TProvide \/ TAvail \/ TDisc
-  \/ TComplete \/ TDbLookup \/ TDbSet \/ TDbIter \/ TDbEnd \/ TCancel \/ TCancelDone \/ TCycle
+  \/ TComplete \/ TDbLookup \/ TDbSet \/ TForget \/ TDbIter \/ TDbEnd \/ TCancel \/ TCancelDone \/ TCycle
   \/ TReturn \/ TSnapshot \/ TCleanCheck \/ TCrash \/ TEnd
 
 TraceSpec == TraceInit /\ [][TraceNext]_tvars
